@@ -787,7 +787,7 @@ def gen_direct_tasks(tier, seed):
     # a many-trials Binomial with mean 1: the distribution (not only the support) must be the one P() reports
     tasks.append(dict(kind="dkw", law=("Binomial", 1200, F_(1, 1200)), n=ndkw // 4, seed=seed * 1000 + 799, tie_at=[1]))
     # and many-trials Binomials whose mean is large enough for a normal shape: still the distribution P() reports
-    tasks.append(dict(kind="dkw", law=("Binomial", 1001, 0.005), n=20000, seed=seed * 1000 + 798, tie_at=[4]))
+    tasks.append(dict(kind="dkw", law=("Binomial", 1001, 0.005), n=60000, seed=seed * 1000 + 798, tie_at=[4]))
     tasks.append(dict(kind="dkw", law=("Binomial", 1500, F_(1, 100)), n=12000, seed=seed * 1000 + 797, tie_at=[14]))
     return tasks
 
